@@ -342,7 +342,7 @@ def check_compare(case, call, permute_vec, permute_sigma):
                     return _fail(case, 'perm', f'{method}: value changes when the conditions of both RDMs are '
                                  f'permuted together ({perm})', Mp[i][j], M[i][j])
     # 6. arrays and RDMs objects
-    for form in ('rdms', 'mixed'):
+    for form in ('rdms', 'mixed', 'array1d'):
         Mr = call(case['x'], case['y'], method, sig, form)
         if isinstance(Mr, dict):
             return _fail(case, 'forms', f'compare raises for input form {form}', Mr, 'a matrix')
@@ -371,4 +371,19 @@ def check_ranks(case, impl):
     if got != want:
         return {'what': 'rankdata is not the tie-averaged rank', 'observed': impl,
                 'expected': [str(v) for v in want], 'features': {'claim': 'ranks'}}
+    return None
+
+
+KNOWN_METHODS = ('cosine', 'spearman', 'corr', 'kendall', 'tau-b', 'tau-a', 'rho-a', 'corr_cov',
+                 'cosine_cov', 'neg_riem_dist', 'bures', 'bures_metric')
+
+
+def check_reject(case, impl):
+    """an unknown method name or stacks over different numbers of conditions must be rejected
+    with ValueError, never answered"""
+    bad = case['method'] not in KNOWN_METHODS or len(case['x'][0]) != len(case['y'][0])
+    if bad and impl != {'exc': 'ValueError'}:
+        return {'what': 'compare() does not reject an unknown method / stacks of unequal shape with ValueError',
+                'observed': impl, 'expected': {'exc': 'ValueError'},
+                'features': {'claim': 'reject', 'method': case['method']}}
     return None
